@@ -159,7 +159,7 @@ def run(ctx, chk):
              'every LYC write and STAT write compares LY with LYC; STAT register composes enables, coincidence and mode',
              floor=8)
     chk.rule('C14.5', 'D', 'batching: the loop advances in uniform 4-clock steps (remaining count used only in guard and '
-             'decrement), requests are OR-accumulated', floor=2)
+             'decrement), requests are OR-accumulated, and mode / line / dots change nowhere but in those steps', floor=3)
     facts = ctx.facts('default')
     prog = ctx.program('default')
     file = 'src/devices/video/mod.rs'
@@ -440,6 +440,32 @@ def run(ctx, chk):
         chk.ok('C14.5', 'uniform-step', sample={'step': '4 clocks', 'remaining-count variable flows into': 'guard/decrement only'})
     else:
         chk.fail('C14.5', 'uniform-step', 'the schedule step is not a uniform 4-clock step independent of the batch size', file, None)
+    # all of the schedule's progress is made by loop iterations: a path through run_clock_cycles that returns without
+    # passing the loop, or that changes mode / line / dots outside an iteration (a shortcut for "idle" stretches), makes
+    # the result depend on how time is split into batches
+    opq_ = [h for h in HEAVY + [SWAP] if h in facts['functions']]
+    ipo = absint.Interp(facts, loop_mode='havoc', opaque=opq_, opaque_havoc={h: [0] for h in opq_},
+                        trust_asserts=('overflow', 'bounds', 'slice_index'), path_budget=5000)
+    st_ = ipo.new_state()
+    vs_ = ipo.arg_object(st_, 'video')
+    clk_ = S(64, 'clocks')
+    cyc_ = ('agg', ('adt', 'timing::ClockCycles', 0, 'ClockCycles'), (clk_,))
+    outside = None
+    nexit = 0
+    for r in ipo.run(RCC, [vs_, cyc_, S(0, 'vram'), S(0, 'oam')], st_):
+        if r.status != 'ok':
+            continue
+        nexit += 1
+        sched = [e for e in effective_stores(r.state.events) if e[1] == 'video' and e[2] and
+                 e[2][-1][1] in ('current_mode', 'current_line', 'current_mode_dots')]
+        if sched:
+            outside = outside or ('%s is changed outside the 4-clock loop step (to %s)' % (sched[0][2][-1][1], fmt(sched[0][3])[:80]))
+        if not any(e[0] == 'loopinit' for e in r.state.events) and r.state.env.possible(clk_, 4):
+            outside = outside or 'a path returns without entering the catch-up loop although clocks were delivered'
+    if nexit and not outside:
+        chk.ok('C14.5', 'loop-only', sample={'exit paths': nexit, 'schedule state changes outside the loop': 0})
+    else:
+        chk.fail('C14.5', 'loop-only', 'VideoState::run_clock_cycles: %s' % (outside or 'no exit path found'), file, None)
     fn = prog.fns[RCC]
     ipx = absint.Interp(facts)
     loops = ipx.loops_of(RCC)
